@@ -67,7 +67,7 @@ def run_worker(cfg, scenarios, workdir, name, timeout=None, binary="worker"):
         out = os.path.join(workdir, "%s.part%d.ndjson" % (name, part))
         try:
             p = subprocess.run([os.path.join(BUILD, binary), "-scen", scen, "-out", out, "-from", str(done)],
-                               capture_output=True, text=True, timeout=timeout)
+                               capture_output=True, text=True, timeout=timeout, env=dict(os.environ, TMPDIR=workdir))
             rc, so, se = p.returncode, p.stdout, p.stderr
         except subprocess.TimeoutExpired as e:
             rc, so, se = -9, "", "worker timeout"
